@@ -96,6 +96,6 @@ def main():
     print("MANIFEST.json: %d checks, %d not_applicable" % (len(checks), len(na)))
 
 NOT_YET = {}
-HOOK_COMMITS = []
+HOOK_COMMITS = ["912646a"]
 if __name__ == "__main__":
     main()
